@@ -549,7 +549,7 @@ func (e *Extractor) showText(data []byte) {
 		decodedText = f.DecodeString(data)
 	} else {
 		// No font registered - use raw bytes as string (fallback)
-		decodedText = string(data)
+		decodedText = strings.ToValidUTF8(string(data), "\uFFFD")
 	}
 
 	// Calculate text width
